@@ -672,7 +672,7 @@ func (z *ZodRecord[T, R]) validateRecord(value map[string]any, checks []core.Zod
 		keyTransformations := make(map[string]string) // original key -> transformed key
 
 		for key := range value {
-			transformedKey, keyErr := z.parseKeyWithSchema(key)
+			transformedKey, keyErr := z.parseKeyWithSchema(key, ctx)
 			if keyErr != nil {
 				// In loose mode, pass through non-matching keys unchanged.
 				if z.internals.Loose {
@@ -711,7 +711,7 @@ func (z *ZodRecord[T, R]) validateRecord(value map[string]any, checks []core.Zod
 		for key, val := range value {
 			// In loose mode, only validate values for keys that match the key schema.
 			if z.internals.Loose && z.internals.KeyType != nil {
-				if _, keyErr := z.parseKeyWithSchema(key); keyErr != nil {
+				if _, keyErr := z.parseKeyWithSchema(key, ctx); keyErr != nil {
 					// Key doesn't match pattern, skip value validation (pass through unchanged).
 					continue
 				}
@@ -827,13 +827,13 @@ func convertToSchemaNumericType(floatValue float64, keySchema any) any {
 // parseKeyWithSchema parses a key using the key schema via reflection.
 // This handles any schema type (ZodString, ZodLiteral, etc.).
 // For numeric key schemas, it supports parsing string keys as numbers (Zod v4 feature).
-func (z *ZodRecord[T, R]) parseKeyWithSchema(key string) (any, error) {
+func (z *ZodRecord[T, R]) parseKeyWithSchema(key string, ctx *core.ParseContext) (any, error) {
 	if z.internals.KeyType == nil {
 		return key, nil
 	}
 
 	// First try parsing the key as a string.
-	result, err := z.parseSchemaValueAny(key, z.internals.KeyType)
+	result, err := z.parseSchemaValueAny(key, z.internals.KeyType, ctx)
 
 	// If string parsing failed and the key is a numeric string, retry with numeric
 	// value for any schema — not just explicitly numeric key schemas. This enables
@@ -844,7 +844,7 @@ func (z *ZodRecord[T, R]) parseKeyWithSchema(key string) (any, error) {
 		if parseErr == nil {
 			// For known numeric schemas, convert to the expected Go type.
 			numValue := convertToSchemaNumericType(floatValue, z.internals.KeyType)
-			numResult, numErr := z.parseSchemaValueAny(numValue, z.internals.KeyType)
+			numResult, numErr := z.parseSchemaValueAny(numValue, z.internals.KeyType, ctx)
 			if numErr == nil {
 				return fmt.Sprintf("%v", numResult), nil
 			}
@@ -852,7 +852,7 @@ func (z *ZodRecord[T, R]) parseKeyWithSchema(key string) (any, error) {
 			// For non-numeric schemas (Literal, Union, etc.), also try as int.
 			if floatValue == float64(int64(floatValue)) {
 				intValue := int(int64(floatValue))
-				intResult, intErr := z.parseSchemaValueAny(intValue, z.internals.KeyType)
+				intResult, intErr := z.parseSchemaValueAny(intValue, z.internals.KeyType, ctx)
 				if intErr == nil {
 					return fmt.Sprintf("%v", intResult), nil
 				}
@@ -868,15 +868,16 @@ func (z *ZodRecord[T, R]) parseKeyWithSchema(key string) (any, error) {
 }
 
 // parseSchemaValueAny parses a value using the given schema via reflection.
-// Returns the parsed result and any error.
-func (z *ZodRecord[T, R]) parseSchemaValueAny(value any, schema any) (any, error) {
+// Returns the parsed result and any error. The caller's context travels with the
+// value, so the per-parse error map applies to the issues of a key schema too.
+func (z *ZodRecord[T, R]) parseSchemaValueAny(value any, schema any, ctx *core.ParseContext) (any, error) {
 	if schema == nil {
 		return value, nil
 	}
 
 	// First try direct type assertion for common types
 	if keySchema, ok := schema.(core.ZodType[any]); ok {
-		return keySchema.Parse(value)
+		return keySchema.Parse(value, ctx)
 	}
 
 	// Use reflection to call ParseAny method (works for all schema types)
@@ -892,7 +893,7 @@ func (z *ZodRecord[T, R]) parseSchemaValueAny(value any, schema any) (any, error
 		if !parseMethod.IsValid() {
 			return value, nil
 		}
-		results := parseMethod.Call([]reflect.Value{reflectArg(value, parseMethod.Type())})
+		results := parseMethod.Call(reflectArgs(value, parseMethod.Type(), ctx))
 		if len(results) >= 2 {
 			if errInterface := results[1].Interface(); errInterface != nil {
 				if err, ok := errInterface.(error); ok {
@@ -907,7 +908,7 @@ func (z *ZodRecord[T, R]) parseSchemaValueAny(value any, schema any) (any, error
 	}
 
 	// Call ParseAny method.
-	results := parseAnyMethod.Call([]reflect.Value{reflectArg(value, parseAnyMethod.Type())})
+	results := parseAnyMethod.Call(reflectArgs(value, parseAnyMethod.Type(), ctx))
 	if len(results) >= 2 {
 		if errInterface := results[1].Interface(); errInterface != nil {
 			if err, ok := errInterface.(error); ok {
@@ -919,6 +920,16 @@ func (z *ZodRecord[T, R]) parseSchemaValueAny(value any, schema any) (any, error
 		return results[0].Interface(), nil
 	}
 	return value, nil
+}
+
+// reflectArgs returns the arguments of a reflective Parse / ParseAny call: the value and,
+// when the method takes one, the parse context.
+func reflectArgs(value any, mt reflect.Type, ctx *core.ParseContext) []reflect.Value {
+	args := []reflect.Value{reflectArg(value, mt)}
+	if ctx != nil && acceptsParseContext(mt) {
+		args = append(args, reflect.ValueOf(ctx))
+	}
+	return args
 }
 
 // reflectArg returns value as the first argument of a reflective call to a method of type mt.
